@@ -82,6 +82,7 @@ func finishRun(e *Engine, results []*FnResult, ro runOpts) int {
 	var solverTime float64
 	violations := 0
 	vacChecks := 0
+	bmcCache := map[string]*ReplayFile{}
 	absSet := map[string]bool{}
 	assumedSet := map[string]bool{}
 	var samples []any
@@ -171,6 +172,20 @@ func finishRun(e *Engine, results []*FnResult, ro runOpts) int {
 				rf.SolverOutput = "undecided: " + o.Detail
 			}
 			runReplay(rf, ro.repoDir, filepath.Join(e.workDir, "replay"))
+			if !rf.Reproduced && r.Contract != nil {
+				// look for a concrete failing input by bounded unrolling of the same function (once per function)
+				if _, done := bmcCache[r.Fn]; !done {
+					bmcCache[r.Fn] = e.bmcSearch(r, ro.prop, ro.repoDir, map[string]bool{"post": true, "index": true, "nilderef": true, "typeassert": true,
+						"ifacecmp": true, "panic": true, "nilmap": true, "div": true, "slice": true, "frame": true, "makeslice": true})
+				}
+				if b := bmcCache[r.Fn]; b != nil {
+					b2 := *b
+					b2.Property, b2.Clause = ro.prop, o.Text+"  (failing obligation: "+o.Name+"; input found for "+b.Obligation+")"
+					b2.Obligation = o.Name
+					b2.SolverOutput = rf.SolverOutput + "; " + o.Status + " " + o.Detail
+					rf = &b2
+				}
+			}
 			rdir := filepath.Join(ro.verifDir, "replays", ro.prop)
 			os.MkdirAll(rdir, 0o755)
 			rpath := filepath.Join(rdir, sanitizeFile(o.Name)+".json")
